@@ -552,6 +552,7 @@ def verify_hash_ctor(E, prop="C16"):
         st = State()
         vals = {p_: OpaqueV(z3.Const("ctor_" + p_, Py), tag=p_) for p_ in hparams}
         vals["use_pooling"] = BoolV(pooling)
+        vals["key_prefix"] = BytesV(z3.String("ctor_prefix_bytes"))       # a bytes prefix here; the str spelling is the separate case below
         vals["servers"] = st.new_list([])
         vals["hasher"] = ClassV("pymemcache.client.rendezvous:RendezvousHash")
         st.ghost["ctor"] = []
@@ -632,6 +633,26 @@ def verify_hash_ctor(E, prop="C16"):
                 nm = node_name(srv.t)
                 E.oblige("%s/the-client-is-registered-under-the-node-name-and-the-node-is-in-rotation%s" % (apre, E.case_suffix), s3,
                          z3.And(z3.Select(C2["mem"], nm), z3.Select(R2["mem"], nm)), func=aq, kind="forward")
+        # a str key_prefix: Client and PooledClient store its ASCII bytes (verify_client_ctor); HashClient validates its routing key with
+        # the prefix itself, so it must hold bytes too - otherwise every keyed call fails with a TypeError instead of behaving like Client
+        E.case_suffix = "/use_pooling=%s,str-prefix" % pooling
+        st2 = State()
+        st2.ghost["ctor"] = []
+        vals2 = dict(vals)
+        ptxt = z3.String("ctor_prefix_text")
+        vals2["key_prefix"] = StrV(ptxt)
+        vals2["servers"] = st2.new_list([])
+        me2 = st2.new_obj(H, {})
+        for o in E.run_function(hq, st2, [vals2[p_] for p_ in hparams], {}, selfv=me2):
+            if o.kind != "return":
+                if o.val.cls in ("UnicodeEncodeError", "UnicodeError"):
+                    continue
+                E.oblige("%s/constructor-accepts-a-str-key_prefix%s" % (pre, E.case_suffix), o.st, T(False), func=hq, meta={"raised": o.val.cls})
+                continue
+            kp = o.st.heap[me2.ref].get("key_prefix")
+            E.oblige("%s/a-str-key_prefix-is-kept-as-its-ASCII-bytes(like-Client)%s" % (pre, E.case_suffix), o.st,
+                     kp.t == ptxt if isinstance(kp, BytesV) else T(False), func=hq, kind="forward", meta={"stored_kind": getattr(kp, "kind", None), "hash_str_prefix": True})
+        E.case_suffix = "/use_pooling=%s" % pooling
         for qn in ("pymemcache.client.rendezvous:RendezvousHash", pm.CL, pm.PC):
             E.contracts.pop(qn, None)
         E.hooks.pop("time.time", None)
